@@ -248,6 +248,22 @@ def check_c17(run):
         sessions.append({"id": 100000 + i, "kind": "capacity", "min": mn, "max": mx, "model": rng.randint(1, 4), "rules": [],
                          "gated": rng.random() < 0.85, "checkv": False, "gatehooks": rng.random() < 0.5, "timeout": 6,
                          "script": script})
+    # waiters proceed: every instance is held inside a rule, more requests arrive and wait, ONE holder (of the resident or
+    # of the additional list; ending normally, with a rule error or with a panic) is let go and nothing else happens
+    # until a waiter has completed
+    nst = 0
+    for (mn, mx) in [(1, 2), (1, 3), (2, 3), (2, 4), (3, 5)]:
+        for which in ("resident", "addition", "any"):
+            for fail in ("", "boom", "cond", "nilstag"):
+                for nw in ((1, 2) if not quick else (rng.choice([1, 2]),)):
+                    reqs = [iso_req(k + 1, rng, ISO_KEYS, fail) for k in range(mx)] + \
+                           [iso_req(mx + k + 1, rng, ISO_KEYS, "") for k in range(nw)]
+                    final = [iso_req(mx + nw + k + 1, rng, ISO_KEYS, "") for k in range(mx)]
+                    nst += 1
+                    sessions.append({"id": 200000 + nst, "kind": "capacity", "min": mn, "max": mx, "model": rng.randint(1, 4), "rules": [],
+                                     "gated": False, "checkv": False, "gatehooks": False, "timeout": 5,
+                                     "script": [{"op": "starve", "reqs": reqs, "which": which, "waiters": nw}, {"op": "quiesce"},
+                                                {"op": "burst", "reqs": final}, {"op": "quiesce"}]})
     if getattr(run, "collect", None) is not None:
         run.collect["capacity"] = sessions
         return 0
